@@ -54,6 +54,7 @@ type ioObj struct {
 	closed bool
 	broken bool // descriptor closed underneath
 	full   bool // the send buffer was filled by the harness: writes would-block until the peer drains
+	pholdID string // identity of that placeholder (to close it at teardown if the library left it open)
 	phold  bool // ... and its number re-occupied by an inert placeholder (an eventfd), so that nothing else can take it
 	rd, wr *ioOp
 	sent   int // bytes the peer has written towards the object
@@ -184,9 +185,6 @@ func (o *ioObj) teardown() {
 		switch {
 		case o.broken:
 			// the descriptor was closed underneath on purpose; nothing of sonic's to close
-			if o.phold && o.kind != "adp" { // (the adapter's net.Conn, closed below, closes the number)
-				syscall.Close(o.rawfd)
-			}
 		case o.fdo != nil:
 			if o.kind == "tcp" || o.kind == "acc" {
 				syscall.SetsockoptLinger(o.rawfd, syscall.SOL_SOCKET, syscall.SO_LINGER, &syscall.Linger{Onoff: 1})
@@ -202,6 +200,13 @@ func (o *ioObj) teardown() {
 		if c, ok := k.(io.Closer); ok {
 			c.Close()
 		}
+	}
+	// The placeholder that re-occupied a descriptor number is the harness's: if it is still there (a Close that found
+	// the descriptor missing from the epoll set returns early and, rightly, does not close a number that is not its
+	// own any more), it is released here. Leaving it leaked one descriptor per execution, and after a thousand of
+	// them sonic's select()-based connect indexed past its fd_set.
+	if o.pholdID != "" && kern.Identity(o.rawfd) == o.pholdID {
+		syscall.Close(o.rawfd)
 	}
 }
 
@@ -422,6 +427,18 @@ func (d *ioDriver) behave(op *ioOp) {
 			}})
 		}
 		list = append(list, beh{"close-other", func() { d.close(oth) }})
+	}
+	if oth != nil && !oth.closed && !oth.broken && oth.lst != nil && kern.WouldNotBlockRead(oth.rawfd) {
+		// the other object is a listener with a connection queued (and possibly an AsyncAccept waiting for exactly that
+		// readiness later in this batch): this handler takes the connection with the blocking Accept, so the
+		// readiness the poller has already harvested for the listener is stale
+		list = append(list, beh{"accept-the-other-listener's-queued-connection-synchronously", func() {
+			c, err := oth.lst.Accept()
+			if err == nil && c != nil {
+				syscall.SetsockoptLinger(c.RawFd(), syscall.SOL_SOCKET, syscall.SO_LINGER, &syscall.Linger{Onoff: 1})
+				c.Close()
+			}
+		}})
 	}
 	if d.c03 && len(d.timers) > 0 && d.timers[0].armed && !d.timers[0].closed {
 		// the usual "push the timeout back on every message": cancel the armed timer and schedule it afresh, from an
@@ -709,6 +726,18 @@ func (d *ioDriver) drain() {
 	for i := 0; i < h; i++ {
 		d.pollOne()
 	}
+	// A listener on which (as far as the harness knows) no accept is in flight must not react to a new connection: an
+	// accept that completed — with a connection or with an error — and was quietly armed again by the library would.
+	for _, o := range d.objs {
+		if o.lst != nil && !o.closed && !o.broken && o.rd == nil && len(o.peers) < 3 {
+			if p, err := kern.ConnectRaw(o.addr, o.port); err == nil {
+				o.peers = append(o.peers, p)
+				kern.AwaitReadReady(o.rawfd, settleGuard)
+				d.pollOne()
+				d.pollOne()
+			}
+		}
+	}
 	for _, op := range d.inflight() {
 		if op.obj.broken {
 			continue
@@ -805,6 +834,7 @@ func (d *ioDriver) actions() []ioAction {
 						syscall.Close(ev)
 					}
 					o.broken, o.phold = true, true
+					o.pholdID = kern.Identity(o.rawfd)
 					d.start(o, dir, 1, 0)
 					if op := map[string]*ioOp{"read": o.rd, "write": o.wr}[dir]; op != nil && !op.done {
 						d.fail(o.kind+"."+dir+"/registration-failure-not-reported", "%s: the descriptor is not in the epoll set any more; %s#%d was started (deferred) and its callback has not run", o.name, dir, op.id)
